@@ -436,15 +436,21 @@ func buildC19(tier string) *core.Plan {
 	var sets [][]int
 	if thorough {
 		statelessLen = 6
-		n := len(c19Templates)
+		// every 4-subset of the 19 general templates; the later, purpose-built groups (required/supplied,
+		// hidden root, template document + referrer + change) completed by every choice of general ones
+		general := []int{0, 1, 2, 3, 4, 5, 6, 7, 8, 9, 10, 11, 12, 13, 14, 15, 16, 17, 21}
+		n := len(general)
 		for a := 0; a < n; a++ {
 			for b := a + 1; b < n; b++ {
+				sets = append(sets, []int{18, 19, general[a], general[b]})
 				for d := b + 1; d < n; d++ {
+					sets = append(sets, []int{20, general[a], general[b], general[d]})
 					for e := d + 1; e < n; e++ {
-						sets = append(sets, []int{a, b, d, e})
+						sets = append(sets, []int{general[a], general[b], general[d], general[e]})
 					}
 				}
 			}
+			sets = append(sets, []int{22, 23, 24, general[a]})
 		}
 	} else {
 		sets = [][]int{{0, 1, 6, 9}, {2, 3, 4, 10}, {5, 7, 8, 11}, {0, 1, 2, 8}, {0, 11, 13, 9}, {12, 14, 1, 6}, {0, 21, 13, 14}, {15, 16, 17, 13}, {18, 19, 0, 9}, {20, 0, 6, 13}, {22, 23, 24, 0}}
